@@ -342,6 +342,103 @@ fn vp_native_redirect_chains() {
     println!("VP-NATIVE redirect_chains cases={}", cases);
 }
 
+/// like `serve`, but the request is recorded BEFORE the reply is written, so that the log is complete when the client returns
+fn serve_early(log: Arc<Mutex<Vec<Seen>>>, reply: impl Fn(&str, u16) -> Vec<u8> + Send + Sync + 'static) -> u16 {
+    let l = TcpListener::bind("127.0.0.1:0").unwrap();
+    let port = l.local_addr().unwrap().port();
+    let reply = Arc::new(reply);
+    std::thread::spawn(move || {
+        for s in l.incoming() {
+            let mut s: TcpStream = match s { Ok(s) => s, Err(_) => break };
+            let (log, reply) = (log.clone(), reply.clone());
+            std::thread::spawn(move || {
+                s.set_read_timeout(Some(std::time::Duration::from_millis(1500))).ok();
+                let mut r = BufReader::new(s.try_clone().unwrap());
+                let mut first = String::new(); if r.read_line(&mut first).unwrap_or(0) == 0 { return; }
+                let (mut host, mut cl, mut chunked) = (None, None::<usize>, false); let mut head = String::new();
+                loop { let mut h = String::new(); if r.read_line(&mut h).unwrap_or(0) == 0 || h == "\r\n" { break; }
+                    head.push_str(&h);
+                    let lower = h.to_ascii_lowercase();
+                    if let Some(v) = lower.strip_prefix("host:") { host = Some(v.trim().to_string()); }
+                    if let Some(v) = lower.strip_prefix("content-length:") { cl = v.trim().parse().ok(); }
+                    if lower.starts_with("transfer-encoding:") { chunked = true; } }
+                let mut body = vec![0u8; cl.unwrap_or(0)]; if cl.unwrap_or(0) > 0 { if r.read_exact(&mut body).is_err() { body = b"<BODY SHORTER THAN CONTENT-LENGTH>".to_vec(); } }
+                if chunked { let mut raw = Vec::new(); let mut b = [0u8; 1];
+                    while !raw.ends_with(b"0\r\n\r\n") { if r.read(&mut b).unwrap_or(0) == 0 { break; } raw.push(b[0]); }
+                    body = decode_chunked(&raw).map(|x| x.0).unwrap_or(b"<MALFORMED CHUNKED BODY>".to_vec()); }
+                if chunked && cl.is_some() { body = b"<BOTH FRAMINGS>".to_vec(); }
+                let line = first.trim_end().to_string();
+                log.lock().unwrap().push(Seen { port, first_line: line.clone(), host, body, raw_after_head: vec![], head });
+                s.write_all(&reply(&line, port)).ok(); s.flush().ok();
+                std::thread::sleep(std::time::Duration::from_millis(50));
+            });
+        }
+    });
+    port
+}
+
+/// C10: every hop of a redirect chain that changes port is a complete request of its own: Host of that hop, the caller's header
+/// kept, framing that matches the body written on that hop; for 307/308 the same method and body bytes on every hop, for every body kind
+#[test]
+fn vp_native_redirect_hops_with_bodies() {
+    let log = Arc::new(Mutex::new(Vec::new()));
+    // two servers: A/<status>/start -> B/<status>/next -> A/<status>/end -> 200
+    let ports: Arc<Mutex<(u16, u16)>> = Arc::new(Mutex::new((0, 0)));
+    let mk = |ports: Arc<Mutex<(u16, u16)>>| move |line: &str, _port: u16| -> Vec<u8> {
+        let (a, b) = *ports.lock().unwrap();
+        let path = line.split(' ').nth(1).unwrap_or("");
+        let seg: Vec<&str> = path.split('/').collect();
+        if seg.len() < 3 { return resp(404, None, "nf"); }
+        let status: u16 = seg[1].parse().unwrap_or(404);
+        match seg[2] { "start" => resp(status, Some(&format!("http://127.0.0.1:{}/{}/next", b, status)), "go"), "next" => resp(status, Some(&format!("http://127.0.0.1:{}/{}/end", a, status)), ""), _ => resp(200, None, "done") }
+    };
+    let a = serve_early(log.clone(), mk(ports.clone()));
+    let b = serve_early(log.clone(), mk(ports.clone()));
+    *ports.lock().unwrap() = (a, b);
+    let s = { let mut s = crate::Session::new(); s.proxy_settings(crate::ProxySettings::builder().build()); s };
+    let big: Vec<u8> = (0..70_000u32).map(|i| (i % 251) as u8).collect();
+    let path = std::env::temp_dir().join(format!("vp_native_hops_{}", std::process::id()));
+    std::fs::write(&path, &big).unwrap();
+    let mut cases = 0u64;
+    for status in [301u16, 302, 303, 307, 308] { for kind in ["empty", "text", "bytes", "file", "json", "json_streaming", "form", "multipart", "custom-chunked", "custom-length"] {
+        log.lock().unwrap().clear();
+        let url = format!("http://127.0.0.1:{}/{}/start", a, status);
+        let rb = s.post(&url).header("X-Caller", "keep-me");
+        let (res, want): (crate::Result<crate::Response>, Option<Vec<u8>>) = match kind {
+            "empty" => (rb.send(), Some(vec![])),
+            "text" => (rb.text("héllo text").send(), Some("héllo text".as_bytes().to_vec())),
+            "bytes" => (rb.bytes(big.clone()).send(), Some(big.clone())),
+            "file" => (rb.file(std::fs::File::open(&path).unwrap()).send(), Some(big.clone())),
+            "json" => (rb.json(&vec![1, 2, 3]).unwrap().send(), Some(b"[1,2,3]".to_vec())),
+            "json_streaming" => (rb.json_streaming(vec![4, 5, 6]).send(), Some(b"[4,5,6]".to_vec())),
+            "form" => (rb.form(&[("a", "b c")]).unwrap().send(), Some(b"a=b+c".to_vec())),
+            "multipart" => (rb.body(crate::MultipartBuilder::new().with_text("k", "v").build().unwrap()).send(), None),
+            "custom-chunked" => (rb.body(Writes { pieces: vec![piece(5, 1), piece(0, 0), piece(9000, 2)], chunked: true }).send(), Some([piece(5, 1), piece(9000, 2)].concat())),
+            _ => (rb.body(Writes { pieces: vec![piece(5, 1), piece(9000, 2)], chunked: false }).send(), Some([piece(5, 1), piece(9000, 2)].concat())),
+        };
+        let seen = log.lock().unwrap().clone();
+        cases += 1;
+        let ctx = format!("status {} body kind {}", status, kind);
+        let r = res.unwrap_or_else(|e| panic!("{}: {}", ctx, e));
+        assert_eq!((r.status().as_u16(), r.url().as_str()), (200, &format!("http://127.0.0.1:{}/{}/end", a, status)[..]), "{}", ctx);
+        assert_eq!(seen.len(), 3, "three hops: {} -> {:?}", ctx, seen.iter().map(|x| x.first_line.clone()).collect::<Vec<_>>());
+        for (i, x) in seen.iter().enumerate() {
+            let hop_port = if i == 1 { b } else { a };
+            assert_eq!(x.port, hop_port, "hop {} went to the wrong server ({})", i, ctx);
+            assert_eq!(x.host.as_deref(), Some(&format!("127.0.0.1:{}", hop_port)[..]), "Host of hop {} ({})", i, ctx);
+            assert!(x.head.to_ascii_lowercase().contains("x-caller: keep-me"), "the caller's header is missing on hop {} ({})", i, ctx);
+            assert!(!x.body.starts_with(b"<"), "framing of hop {} does not match the body written: {} ({})", i, String::from_utf8_lossy(&x.body), ctx);
+            if status == 307 || status == 308 {
+                assert!(x.first_line.starts_with("POST "), "method changed on hop {}: {} ({})", i, x.first_line, ctx);
+                match &want { Some(w) => assert!(x.body == *w, "body of hop {}: {} bytes instead of {} ({})", i, x.body.len(), w.len(), ctx),
+                              None => { /* multipart: known finding F8 (one-shot body) is reported by the contract check; here only the first hop is compared */ if i == 0 { assert!(!x.body.is_empty()); } } }
+            }
+        }
+    } }
+    let _ = std::fs::remove_file(&path);
+    println!("VP-NATIVE redirect_hops_with_bodies cases={}", cases);
+}
+
 /// C09: redirect chains enumerated: status x chain length x max_redirections x Location form x follow on/off; the server counts
 /// requests before it answers, so the number of requests sent is exact
 #[test]
